@@ -60,6 +60,26 @@ Proof. unfold cot_planes. change (zrange 6) with [0;1;2;3;4;5]. reflexivity. Qed
 Lemma pl_nth (l:list ten) o ri : 0 <= o < 6 -> 0 <= ri < 2 -> pl Op l o ri = nth (Z.to_nat (2*o + ri)) l dz.
 Proof. intros. reflexivity. Qed.
 
+(* shapes only, either colour mode *)
+Lemma phases_shape (colour:bool) (C:Z) (p:list ten) o ri : 0 <= o < 6 -> 0 <= ri < 2 ->
+  let a := pl Op p o 0 in let q := pl Op (phases Op X b colour C p) o ri in
+  tN q = tN a /\ tC q = tC a /\ tH q = tH a /\ tW q = tW a.
+Proof.
+  intros Ho Hri. cbv zeta. unfold phases. change (zrange 6) with [0;1;2;3;4;5]. cbn [flat_map app].
+  assert (Ho': o = 0 \/ o = 1 \/ o = 2 \/ o = 3 \/ o = 4 \/ o = 5) by lia. assert (Hr': ri = 0 \/ ri = 1) by lia.
+  destruct Ho' as [->|[->|[->|[->|[->| ->]]]]]; destruct Hr' as [->| ->]; repeat split; reflexivity.
+Qed.
+Lemma cot_shape (colour:bool) (C:Z) (dr:ten) (ph:list ten) o ri : 0 <= o < 6 -> 0 <= ri < 2 ->
+  let a := pl Op ph o 0 in let q := pl Op (cot_planes Op colour C dr ph) o ri in
+  tN q = tN a /\ tC q = tC a /\ tH q = tH a /\ tW q = tW a.
+Proof.
+  intros Ho Hri. cbv zeta. unfold cot_planes. change (zrange 6) with [0;1;2;3;4;5]. cbn [flat_map app].
+  assert (Ho': o = 0 \/ o = 1 \/ o = 2 \/ o = 3 \/ o = 4 \/ o = 5) by lia. assert (Hr': ri = 0 \/ ri = 1) by lia.
+  destruct Ho' as [->|[->|[->|[->|[->| ->]]]]]; destruct Hr' as [->| ->]; repeat split; reflexivity.
+Qed.
+Lemma cot_len_gen (colour:bool) (C:Z) (dr:ten) (ph:list ten) : length (cot_planes Op colour C dr ph) = 12%nat.
+Proof. unfold cot_planes. change (zrange 6) with [0;1;2;3;4;5]. reflexivity. Qed.
+
 Variables (L0 L1:Z) (h0 h1:Z->R).
 Hypothesis HL0 : 1 <= L0 /\ L0 mod 2 = 1. Hypothesis HL1 : 1 <= L1 /\ L1 mod 2 = 1.
 Hypothesis Hs0 : Symmetric L0 h0. Hypothesis Hs1 : Symmetric L1 h1.
@@ -140,6 +160,74 @@ Proof.
     rewrite (pl_nth px o 0) by lia. apply Spx. lia. }
   pose proof (cot_len C dr (phases Op X b false C px)) as Lcot.
   remember (cot_planes Op false C dr (phases Op X b false C px)) as cot eqn:Ecot. clear Ecot. clearbody dr.
+  (* the lowpass cotangent *)
+  assert (Sgll: shaped h (tH h) (tW h) (force Op (up2q Op X dYl))).
+  { unfold shaped, up2q. cbn [force tN tC tH tW]. unfold C, H2, W2 in *. repeat split; lia. }
+  assert (Egll: forall n c i j, tf (force Op (up2q Op X dYl)) n c i j = tf (up2q Op X dYl) n c i j) by (intros; apply force_eq).
+  remember (force Op (up2q Op X dYl)) as gll eqn:Eg. clear Eg.
+  assert (Sh: forall k, (k < 12)%nat -> shaped h (tH h / 2) (tW h / 2) (nth k cot dz)).
+  { intros k Hk. destruct (Scot k Hk) as (A & B & Cc & D). unfold shaped, H2, W2 in *. rewrite N1, N2, N3, N4. repeat split; assumption. }
+  pose proof (level1_adjoint Op Rth cancel2 s L0 L1 h0 h1 HL0 HL1 Hs0 Hs1 h gll
+     (nth 0 cot dz) (nth 1 cot dz) (nth 2 cot dz) (nth 3 cot dz) (nth 4 cot dz) (nth 5 cot dz)
+     (nth 6 cot dz) (nth 7 cot dz) (nth 8 cot dz) (nth 9 cot dz) (nth 10 cot dz) (nth 11 cot dz)
+     ltac:(lia) ltac:(lia) ltac:(lia) ltac:(lia) ltac:(lia) Sgll
+     (Sh 0%nat ltac:(lia)) (Sh 1%nat ltac:(lia)) (Sh 2%nat ltac:(lia)) (Sh 3%nat ltac:(lia)) (Sh 4%nat ltac:(lia)) (Sh 5%nat ltac:(lia))
+     (Sh 6%nat ltac:(lia)) (Sh 7%nat ltac:(lia)) (Sh 8%nat ltac:(lia)) (Sh 9%nat ltac:(lia)) (Sh 10%nat ltac:(lia)) (Sh 11%nat ltac:(lia))) as Hadj.
+  cbv zeta in Hadj. rewrite <- (list12 cot dz Lcot) in Hadj. clear Scot Sh Sgll Spx Lpx.
+  revert Hadj. apply is_ok_imp. intros [llh phh]. cbn [fst snd]. apply is_ok_imp. intros dx ((D1 & D2 & D3 & D4) & Hadj).
+  split. { unfold shaped. lia. }
+  intros n c Hc. rewrite N3, N4 in Hadj. fold H2 W2 in Hadj. rewrite <- (Hadj n c ltac:(lia)).
+  replace (dot2 Op (tH x) (tW x) llh gll n c) with (dot2 Op H2 W2 (avgpool2 Op X llh) dYl n c).
+  2:{ rewrite (avgpool_dot2 llh dYl n c H2 W2) by (unfold H2, W2; lia). replace (2 * H2) with (tH x) by (unfold H2; lia). replace (2 * W2) with (tW x) by (unfold W2; lia).
+      apply dot2_ext. intros i j Hi Hj. split; [reflexivity|]. rewrite Egll. reflexivity. }
+  rewrite !pl_nth by lia.
+  change (Z.to_nat (2*0 + 0)) with 0%nat. change (Z.to_nat (2*0 + 1)) with 1%nat. change (Z.to_nat (2*1 + 0)) with 2%nat. change (Z.to_nat (2*1 + 1)) with 3%nat.
+  change (Z.to_nat (2*2 + 0)) with 4%nat. change (Z.to_nat (2*2 + 1)) with 5%nat. change (Z.to_nat (2*3 + 0)) with 6%nat. change (Z.to_nat (2*3 + 1)) with 7%nat.
+  change (Z.to_nat (2*4 + 0)) with 8%nat. change (Z.to_nat (2*4 + 1)) with 9%nat. change (Z.to_nat (2*5 + 0)) with 10%nat. change (Z.to_nat (2*5 + 1)) with 11%nat.
+  reflexivity.
+Qed.
+Theorem scat_j1_vjp_gen (colour:bool) (x h dZ:ten) : (colour = true -> tC x = 3) -> 2 <= tH x -> tH x mod 2 = 0 -> 2 <= tW x -> tW x mod 2 = 0 -> 0 < tC x ->
+  tN h = tN x -> tC h = tC x -> tH h = tH x -> tW h = tW x ->
+  tN dZ = tN x -> tH dZ = tH x / 2 -> tW dZ = tW x / 2 ->
+  let C := tC x in let H2 := tH x / 2 in let W2 := tW x / 2 in
+  let nl := if colour then 3 else C in
+  let dYl := force Op (t_chmap nl (fun c => c) dZ) in
+  let dr := force Op (t_chmap (tC dZ - nl) (fun c => nl + c) dZ) in
+  is_ok (fwd_j1 Op s x L0 h0 L1 h1 false M_SYMM) (fun rx =>
+  let cot := cot_planes Op colour C dr (phases Op X b colour C (snd rx)) in
+  is_ok (fwd_j1 Op s h L0 h0 L1 h1 false M_SYMM) (fun rh =>
+  is_ok (scat_j1_bwd Op X b false colour x dZ L0 h0 L1 h1 L1 h1 M_SYMM) (fun dx =>
+    shaped x (tH x) (tW x) dx /\
+    forall n c, 0 <= c < C ->
+      dot2 Op H2 W2 (avgpool2 Op X (fst rh)) dYl n c
+      +r (dot2 Op H2 W2 (pl Op (snd rh) 0 0) (pl Op cot 0 0) n c +r dot2 Op H2 W2 (pl Op (snd rh) 0 1) (pl Op cot 0 1) n c
+          +r dot2 Op H2 W2 (pl Op (snd rh) 5 0) (pl Op cot 5 0) n c +r dot2 Op H2 W2 (pl Op (snd rh) 5 1) (pl Op cot 5 1) n c)
+      +r (dot2 Op H2 W2 (pl Op (snd rh) 2 0) (pl Op cot 2 0) n c +r dot2 Op H2 W2 (pl Op (snd rh) 2 1) (pl Op cot 2 1) n c
+          +r dot2 Op H2 W2 (pl Op (snd rh) 3 0) (pl Op cot 3 0) n c +r dot2 Op H2 W2 (pl Op (snd rh) 3 1) (pl Op cot 3 1) n c)
+      +r (dot2 Op H2 W2 (pl Op (snd rh) 1 0) (pl Op cot 1 0) n c +r dot2 Op H2 W2 (pl Op (snd rh) 1 1) (pl Op cot 1 1) n c
+          +r dot2 Op H2 W2 (pl Op (snd rh) 4 0) (pl Op cot 4 0) n c +r dot2 Op H2 W2 (pl Op (snd rh) 4 1) (pl Op cot 4 1) n c)
+      = dot2 Op (tH x) (tW x) h dx n c))).
+Proof.
+  intros Hcol HH HHe HW HWe HC N1 N2 N3 N4 Z1 Z3 Z4 C H2 W2 nl dYl dr.
+  pose proof (fwd_j1_shapes x HH HHe HW HWe HC) as Sx.
+  unfold scat_j1_bwd, fwd1, inv1.
+  destruct (fwd_j1 Op s x L0 h0 L1 h1 false M_SYMM) as [[llx px]|]; [|contradiction]. cbn [is_ok bind fst snd] in *.
+  destruct Sx as (_ & Lpx & Spx). fold C. fold nl. fold dYl. fold dr.
+  assert (Hnl: nl = C) by (unfold nl, C; destruct colour; [symmetry; apply Hcol; reflexivity | reflexivity]).
+  assert (SdYl: tN dYl = tN x /\ tC dYl = C /\ tH dYl = H2 /\ tW dYl = W2) by (unfold dYl, t_chmap; cbn [force tN tC tH tW]; lia).
+  clearbody dYl.
+  (* shapes of the cotangent planes *)
+  assert (Scot: forall k, (k < 12)%nat -> shaped x H2 W2 (nth k (cot_planes Op colour C dr (phases Op X b colour C px)) dz)).
+  { intros k Hk.
+    assert (Ek: exists o ri, 0 <= o < 6 /\ 0 <= ri < 2 /\ k = Z.to_nat (2*o + ri)).
+    { exists (Z.of_nat k / 2), (Z.of_nat k mod 2). repeat split; try lia. }
+    destruct Ek as (o & ri & Ho & Hri & ->). rewrite <- (pl_nth _ o ri Ho Hri).
+    destruct (cot_shape colour C dr (phases Op X b colour C px) o ri Ho Hri) as (c1 & c2 & c3 & c4).
+    destruct (phases_shape colour C px o 0 Ho ltac:(lia)) as (p1 & p2 & p3 & p4).
+    unfold shaped. rewrite c1, c2, c3, c4, p1, p2, p3, p4.
+    rewrite (pl_nth px o 0) by lia. apply Spx. lia. }
+  pose proof (cot_len_gen colour C dr (phases Op X b colour C px)) as Lcot.
+  remember (cot_planes Op colour C dr (phases Op X b colour C px)) as cot eqn:Ecot. clear Ecot. clearbody dr.
   (* the lowpass cotangent *)
   assert (Sgll: shaped h (tH h) (tW h) (force Op (up2q Op X dYl))).
   { unfold shaped, up2q. cbn [force tN tC tH tW]. unfold C, H2, W2 in *. repeat split; lia. }
